@@ -1,5 +1,6 @@
 import OptiModel.Num
 import OptiModel.Model.Parax
+import OptiModel.Model.Presc
 import OptiModel.Model.Real
 import OptiModel.Proofs.NumReal
 import OptiModel.Props.C02
